@@ -44,18 +44,22 @@ def generate(rng, tier, n):
 
 
 def revive(case: Case) -> Case:
+    if case.line == "(sharednode)":
+        return case
     if case.payload is None:
         case.payload = G.parse_query(case.line)
     return case
 
 
 def shrink(case: Case):
+    if case.payload is None:
+        return
     for q in G.shrink_query(case.payload):
         yield Case(G.sx_query(q), case.tags, "shrink", q)
 
 
 def nontrivial(case: Case, spec: str) -> bool:
-    if spec.startswith("exc:") or not spec:
+    if spec.startswith("exc:") or not spec or case.payload is None:
         return False
     q = case.payload
     total = 1
@@ -75,7 +79,22 @@ def exc_name(e: BaseException, has_quantifier: bool = True) -> str:
     return "exc:quantifier" if has_quantifier and n in ("KeyError", "TypeError") else "exc:" + n
 
 
+def _shared_node() -> str:
+    """F-C01-4: one attribute node used twice (stored in a Python variable)"""
+    from krrood.entity_query_language.entity import let, entity, and_, not_
+    from krrood.entity_query_language.quantify_entity import an
+    objs = [G.P(i, 0, {"f": f}) for i, f in enumerate([True, False, False])]
+    x = let(object, objs, name="x")
+    xf = x.f
+    try:
+        return canon_set([G.show_row((r,)) for r in an(entity(x, and_(not_(xf), xf == False))).evaluate()])  # noqa: E712
+    except Exception as e:  # noqa: BLE001
+        return "exc:" + type(e).__name__
+
+
 def _one(case: Case) -> str:
+    if case.line == "(sharednode)":
+        return _shared_node()
     q = case.payload
     try:
         query, sel, single, _objs = G.build_real(q)
